@@ -57,6 +57,10 @@ def configs(tier):
                             tags=['tree', g] + (['R0'] if R0 else [])))
             if g in (('P3', 'S3') if tier == 'quick' else ('P3', 'S3', 'P4')) and len(I0) == 1 and not R0:
                 out.append(dict(family='tree', entry='SIR_pair_based_pure_IC', graph=g, I0=I0, R0=R0, weighted=True, order=4, tags=['tree', g, 'weighted']))
+            if g in ('P3', 'S3') and len(I0) == 1 and not R0:
+                nl = {'P3': [0, 2, 1], 'S3': [1, 0, 3, 2]}[g]
+                out.append(dict(family='tree', entry='SIR_pair_based_pure_IC', graph=g, I0=I0, R0=R0, weighted=False, order=4, nodelist=nl,
+                                tags=['tree', g, 'nodelist']))
             if g in (('P3', 'S3') if tier == 'quick' else ('P3', 'S3', 'P4')) and len(I0) == 2 and not R0:
                 # several seeds around one susceptible node with unequal edge weights (each edge's own rate in the triple terms)
                 out.append(dict(family='tree', entry='SIR_pair_based_pure_IC', graph=g, I0=I0, R0=R0, weighted=True, order=3 if tier == 'quick' else 4,
@@ -146,10 +150,18 @@ def run_tree(h, cfg, expect_mismatch=False):
             rw = lambda a: Poly.const(1)
         if cfg['R0']:
             kw['initial_recovereds'] = list(cfg['R0'])
+        order = list(nodes)
+        if cfg.get('nodelist'):
+            order = list(cfg['nodelist'])      # explicit node order (not an automorphism): per-node outputs follow it
+            kw['nodelist'] = list(order)
         ret = h.call_must_succeed('no-exception', EoN.SIR_pair_based_pure_IC, G, tau, gamma, list(cfg['I0']), **kw)
         if ret is None:
             return None
         t, S, I, R, Xs, Ys, Zs = ret[:7]
+        if cfg.get('nodelist'):
+            pos = {n: i for i, n in enumerate(order)}
+            Xs = [np.asarray(Xs, dtype=object)[pos[n]] for n in nodes]
+            Ys = [np.asarray(Ys, dtype=object)[pos[n]] for n in nodes]
         refX, refY = master_series(G, nodes, cfg['I0'], cfg['R0'], tau, gamma, tw, rw, M)
         prover = taylor.CoeffProver([z3.Real(n_) > 0 for n_ in names])
         first = None
@@ -477,6 +489,8 @@ def replay_concrete(cfg, kind, values, decisions):
             rw = lambda a: G.nodes[a]['rw']
         if cfg['R0']:
             kw['initial_recovereds'] = list(cfg['R0'])
+        if cfg.get('nodelist'):
+            kw['nodelist'] = list(cfg['nodelist'])      # (the replay compares population totals, which do not depend on the order)
         try:
             ret = EoN.SIR_pair_based_pure_IC(G, tau, gamma, list(cfg['I0']), **kw)
         except Exception as e:
